@@ -1,0 +1,62 @@
+// Copyright (C) The Arvados Authors. All rights reserved.
+//
+// SPDX-License-Identifier: AGPL-3.0
+
+//go:build verif
+// +build verif
+
+// Machine-checked contracts (read by /verif/bin/govc; never compiled into
+// normal builds).  See /verif/DESIGN.md section 3 for the language.
+
+package container
+
+
+// ------------------------------------------------------------------- C14
+// The queue cache.  A local lock/unlock/cancel result (updateWithResp) that
+// arrives while a poll of the API server is in progress is recorded in
+// dontupdate, and the poll result never overwrites or expunges such an entry:
+// the scheduler therefore never sees a container it just locked as Queued
+// again (and starts it twice), nor one it just unlocked as still Locked.
+
+// addEnt adds (or declines to add) the entry for uuid only.  It calls the
+// instance type chooser, which is configuration supplied code.
+//@ func Queue.addEnt trusted
+//@   modifies map[string]QueueEnt
+//@   ensures forall u string :: u != uuid ==> has(cq.current, u) == old(has(cq.current, u)) && cq.current[u] == old(cq.current[u])
+//@ func Queue.notify trusted
+//@   modifies nothing
+// poll talks to the API server without holding the lock: anything may happen
+// to the queue meanwhile.
+//@ func Queue.poll trusted
+//@   modifies all
+
+//@ func Queue.delEnt property C14
+//@   requires cq.current != nil
+//@   modifies map[string]QueueEnt
+//@   ensures !has(cq.current, uuid)
+//@   ensures forall u string :: u != uuid ==> has(cq.current, u) == old(has(cq.current, u)) && cq.current[u] == old(cq.current[u])
+
+//@ func Queue.updateWithResp property C14
+//@   requires cq.current != nil
+//@   ensures old(cq.dontupdate) != nil ==> has(cq.dontupdate, uuid)
+//@   ensures old(has(cq.current, uuid)) ==> has(cq.current, uuid) && cq.current[uuid].Container.State == resp.State && cq.current[uuid].Container.Priority == resp.Priority && cq.current[uuid].Container.LockedByUUID == resp.LockedByUUID
+//@   ensures !old(has(cq.current, uuid)) ==> !has(cq.current, uuid)
+
+//@ func Queue.Update property C14
+//@   ghost d0 $dom[string] = dom(cq.current)
+//@   ghost v0 $val[string]QueueEnt = vals(cq.current)
+//@   ghost du $dom[string] = dom(cq.current)
+//@   ghost polled bool = false
+//@   ghost dunil bool = false
+//@   calls Queue.poll#1: set polled = true
+//@   calls Queue.poll#1: set d0 = dom(cq.current)
+//@   calls Queue.poll#1: set v0 = vals(cq.current)
+//@   calls Queue.poll#1: set du = dom(cq.dontupdate)
+//@   calls Queue.poll#1: set dunil = (cq.dontupdate == nil || cq.current == nil)
+//@   # every entry recorded in dontupdate when the poll returned is, at the end,
+//@   # exactly as it was then: present iff it was present, with the same value
+//@   ensures result == nil && polled && !dunil ==> forall u string :: du[u] ==> has(cq.current, u) == d0[u] && (d0[u] ==> cq.current[u] == v0[u])
+//@   loop 1: invariant cq == old(cq) && polled && (!dunil ==> cq.dontupdate != nil && cq.current != nil && dom(cq.dontupdate) == du)
+//@   loop 1: invariant !dunil ==> forall u string :: du[u] ==> has(cq.current, u) == d0[u] && (d0[u] ==> cq.current[u] == v0[u])
+//@   loop 2: invariant cq == old(cq) && polled && (!dunil ==> cq.dontupdate != nil && cq.current != nil && dom(cq.dontupdate) == du)
+//@   loop 2: invariant !dunil ==> forall u string :: du[u] ==> has(cq.current, u) == d0[u] && (d0[u] ==> cq.current[u] == v0[u])
